@@ -92,6 +92,10 @@ int main(int argc, char **argv) {
             nviol++;
             casepath = outdir + "/cand-" + prop + "-" + std::to_string(seed) + "-" + std::to_string(idx) + ".json";
             if (!o.schedule.empty()) { c.schedule = o.schedule; }
+            if (c.property == "C08") {
+                c.envs = o.failing_envs; c.note = "only:envs";
+                if (o.query_failed) c.note += " query";
+            }
             std::ofstream f(casepath); f << case_to_json(c);
         }
         fprintf(g_res, "R %ld %s\n", idx, outcome_json(o, casepath).c_str()); fflush(g_res);
